@@ -605,9 +605,9 @@ class C06(core.Check):
     )
     assumptions = [
         "the tokenizer of the harness (cbv/props/c06.py: tokenize) maps the text of the file to tokens faithfully",
-        "per-wire grading values of hex lines (their order in the entry is modelled), validity and point positions of curved edges "
-        "(their text is printed by the model), the values of the counts (printed by the model), str() of setting values and of "
-        "float64 coordinates in the VTK are taken from the implementation (C01-C04, C07, C08)",
+        "the numbers of the per-wire Grading.specification and the counts of hex lines, validity and point positions of curved edges "
+        "are taken from the implementation (C01-C04, C07, C08) -- their text is printed by the model; str() of setting values "
+        "and geometry properties are opaque tokens",
         "points of one program are either identical up to float noise or >= 100 TOL apart (merging itself is C05)",
         "names, labels and zones contain no blanks, brackets, `;` and do not start with `//`",
     ]
@@ -615,7 +615,7 @@ class C06(core.Check):
         "Theorems: bracket-layer and schema-layer round trip of the parser on every dictionary with semicolon-free "
         "statements, structural facts of the assembled dictionary, the text of every %.8f number (reads back to within half a "
         "unit of the 8th decimal, well-formed). Text <-> token conversion is validated by the correspondence, not proved; "
-        "grading values (str(float)) stay opaque."
+        "str(float) of grading values and VTK coordinates is generated by the model and validated (accepted tokens are within half an ulp: proved; that the generator is always accepted: run-time check only)."
     )
 
     def gen_cases(self, rng: random.Random, tier: str) -> List[dict]:
